@@ -791,6 +791,18 @@ def expect_pop(rep, rule, key, got, spec_terms, desc):
             return
     elif isinstance(got, Opaque) and "pop" in got.info:
         terms = got.info["pop"]
+    elif isinstance(got, Int) and got.sf is not None and len(got.sf) == 1 and got.sf[0][0] == 0:
+        # counted in the register (mask / shift / add): one counter in the low bits
+        lo_, wd_, terms = got.sf[0]
+        spec_n = len([t for t in spec_terms if not (t is not TOP and len(t) == 0)])
+        if len(terms) >= (1 << wd_) and sorted(bv.t_str(t) for t in terms) == sorted(bv.t_str(t) for t in spec_terms if not (t is not TOP and len(t) == 0)):
+            rep.violated(rule, key, "%s: the %d lanes are counted, but only the low %d bits of the count are kept: a k-mer in which all %d lanes count "
+                         "yields %d instead of %d" % (desc, spec_n, wd_, spec_n, spec_n % (1 << wd_), spec_n),
+                         witness={"kind": "count-wraps", "lanes": spec_n, "kept_bits": wd_})
+            return
+        if len(terms) >= (1 << wd_):
+            rep.inconclusive(rule, key, "%s: a counter reduced modulo 2^%d over other terms than the specified lanes" % (desc, wd_))
+            return
     else:
         rep.inconclusive(rule, key, "%s: result %r is not a population count" % (desc, got))
         return
